@@ -5,40 +5,43 @@ From QV Require Import Model.C10_floquet.
 
 Section FSE.
 Variables S F T : Type.
-Variable tzero : T.
 Variable to_fb : S -> T -> F.
 Variable from_fb : F -> T -> S.
 (* the only property of the Floquet basis that is needed: going to the
    basis and back at the same time is the identity *)
 Hypothesis roundtrip : forall psi t, from_fb (to_fb psi t) t = psi.
 
-Lemma fsesolve_t0_zero psi0 r :
-  hd_error (fsesolve S F T tzero to_fb from_fb psi0 (tzero :: r)) = Some psi0.
-Proof. unfold fsesolve. simpl. now rewrite roundtrip. Qed.
+Lemma fsesolve_initial psi0 t0 r :
+  exists states, fsesolve S F T to_fb from_fb psi0 (t0 :: r) = Some states /\
+                 hd_error states = Some psi0 /\ length states = length (t0 :: r).
+Proof.
+  eexists. split; [reflexivity|]. split.
+  - simpl. now rewrite roundtrip.
+  - now rewrite map_length.
+Qed.
 
-Lemma fsesolve_at_t0_initial psi0 t0 r :
-  hd_error (fsesolve_at_t0 S F T to_fb from_fb psi0 (t0 :: r)) = Some psi0.
-Proof. unfold fsesolve_at_t0. simpl. now rewrite roundtrip. Qed.
-
-Lemma fsesolve_at_t0_same_when_zero psi0 r :
-  fsesolve_at_t0 S F T to_fb from_fb psi0 (tzero :: r)
-  = fsesolve S F T tzero to_fb from_fb psi0 (tzero :: r).
+Lemma fsesolve_empty psi0 : fsesolve S F T to_fb from_fb psi0 [] = None.
 Proof. reflexivity. Qed.
 
-Lemma fsesolve_length psi0 ts :
-  length (fsesolve S F T tzero to_fb from_fb psi0 ts) = length ts.
-Proof. unfold fsesolve. now rewrite map_length. Qed.
+(* every returned state is the initial state carried from tlist[0] to t *)
+Lemma fsesolve_states psi0 t0 r states k t :
+  fsesolve S F T to_fb from_fb psi0 (t0 :: r) = Some states ->
+  nth_error (t0 :: r) k = Some t ->
+  nth_error states k = Some (from_fb (to_fb psi0 t0) t).
+Proof.
+  unfold fsesolve. intros H Ht. injection H as H. subst states.
+  change (nth_error (map (from_fb (to_fb psi0 t0)) (t0 :: r)) k
+          = Some (from_fb (to_fb psi0 t0) t)).
+  apply map_nth_error. exact Ht.
+Qed.
+
+(* the rule before the repair gave the same answers for lists starting at
+   the default time *)
+Lemma old_fsesolve_same_when_zero tzero psi0 r :
+  fsesolve S F T to_fb from_fb psi0 (tzero :: r)
+  = Some (old_fsesolve S F T to_fb from_fb tzero psi0 (tzero :: r)).
+Proof. reflexivity. Qed.
 End FSE.
 
 Lemma toy_roundtrip : forall psi t, toy_from (toy_to psi t) t = psi.
 Proof. intros. unfold toy_from, toy_to. lia. Qed.
-
-Lemma fsesolve_initial_refuted :
-  exists (to_fb : Z -> Z -> Z) (from_fb : Z -> Z -> Z),
-    (forall psi t, from_fb (to_fb psi t) t = psi) /\
-    exists psi0 t0 r,
-      hd_error (fsesolve Z Z Z 0%Z to_fb from_fb psi0 (t0 :: r)) <> Some psi0.
-Proof.
-  exists toy_to, toy_from. split; [exact toy_roundtrip|].
-  exists 7%Z, 5%Z, [6%Z]. vm_compute. discriminate.
-Qed.
